@@ -668,23 +668,64 @@ def run(chk) -> None:
     _r32e(chk)
     chk.rule("R32f", "in the templaters, attributes are set dynamically (setattr) only on objects created for the call: the receiver of every setattr(..) in core/templaters is a fresh instance, not a class object or another value that outlives the call")
     _r32f(chk)
-    chk.rule("R32g", "every call of a process-wide memoised config loader that is keyed on a path (load_config_file_as_dict, load_config_at_path) passes a path that is absolute by construction (resolve() / abspath() / expanduser('~..') / a reviewed absolute source, kept through str / Path / join / dirname, through locals and through the parameters of module-level helpers): the key identifies the file whatever the working directory")
+    chk.rule("R32g", "every call of a process-wide memoised config loader that is keyed on a path (load_config_file_as_dict, load_config_at_path) passes a path that is absolute by construction (resolve() / abspath() / expanduser('~..') / a reviewed absolute source, kept through str / Path / join / `/` / dirname, through locals, element-wise through comprehensions and loops over such values, through the parameters and the return values of module-level helpers): the key identifies the file whatever the working directory")
     _r32g(chk)
     chk.exhaustive = True
     chk.assumptions.append("CPython ast gives the program's syntax faithfully; the reviewed tables (ARTEFACT_WRITERS, REVIEWED_STATE, REVIEWED_CACHES, REVIEWED_ARG_MUTATIONS in sa/rules/c32.py) were reviewed by hand")
     chk.assumptions.append("calls through values the call graph cannot type are resolved by method name over the whole tree (over-approximation); calls inside lambda bodies and calls made by libraries outside the tree are not followed")
 
 
-_R32G_ABS_MAKERS = ("resolve", "abspath", "realpath", "absolute")
+_R32G_ABS_MAKERS = ("resolve", "abspath", "realpath", "absolute", "home", "cwd", "getcwd")
 _R32G_ABS_KEEPERS = ("str", "Path", "expanduser", "dirname", "normpath", "fspath")
+_R32G_SEQ_KEEPERS = ("list", "tuple", "sorted", "reversed", "set", "frozenset", "iter")
 # functions whose return value is an absolute path (read by hand)
 _R32G_REVIEWED_ABS = {"_get_user_config_dir_path": "platformdirs' user config directory (or ~/.config expanded): absolute"}
+_R32G_COMPS = (ast.ListComp, ast.SetComp, ast.GeneratorExp, ast.DictComp)
+
+
+def _r32g_comp_iter(name: ast.Name):
+    """The iterable a comprehension variable ranges over, when ``name`` is one (innermost binding)."""
+    child, p = name, getattr(name, "_parent", None)
+    while p is not None and not isinstance(p, (ast.FunctionDef, ast.AsyncFunctionDef, ast.Lambda, ast.ClassDef)):
+        if isinstance(p, _R32G_COMPS):
+            for g in p.generators:
+                if isinstance(g.target, ast.Name) and g.target.id == name.id and child is not g.iter:
+                    return g.iter
+        child, p = p, getattr(p, "_parent", None)
+    return None
+
+
+def _r32g_elems_abs(repo, m, f, cfg, e, at, depth: int) -> bool:
+    """Every element ``e`` yields is an absolute path by construction: a comprehension / generator whose
+    element is, a display of such, ``list()/tuple()/sorted()/..`` or a slice of such, a local holding one."""
+    if depth > 14 or e is None:
+        return False
+    if isinstance(e, (ast.ListComp, ast.SetComp, ast.GeneratorExp)):
+        return _r32g_abs(repo, m, f, cfg, e.elt, at, depth + 1)
+    if isinstance(e, (ast.Tuple, ast.List, ast.Set)):
+        return bool(e.elts) and all(not isinstance(x, ast.Starred) and _r32g_abs(repo, m, f, cfg, x, at, depth + 1) for x in e.elts)
+    if isinstance(e, ast.Call) and isinstance(e.func, ast.Name) and e.func.id in _R32G_SEQ_KEEPERS and len(e.args) == 1:
+        return _r32g_elems_abs(repo, m, f, cfg, e.args[0], at, depth + 1)
+    if isinstance(e, ast.Subscript) and isinstance(e.slice, ast.Slice):
+        return _r32g_elems_abs(repo, m, f, cfg, e.value, at, depth + 1)
+    if isinstance(e, ast.Name):
+        it = _r32g_comp_iter(e)
+        if it is not None:
+            return False  # a sequence of sequences: not read
+        os_ = origins(cfg, e, at)
+        return bool(os_) and all(
+            o.kind == "expr" and isinstance(o.expr, ast.AST) and not o.path and _r32g_elems_abs(repo, m, f, cfg, o.expr, o.stmt if o.stmt is not None else at, depth + 1)
+            for o in os_
+        )
+    return False
 
 
 def _r32g_abs(repo, m, f, cfg, e, at, depth: int = 0) -> bool:
     """``e`` is an absolute path by construction (never relative to the current directory)."""
     if depth > 14 or e is None:
         return False
+    if isinstance(e, ast.BinOp) and isinstance(e.op, ast.Div):
+        return _r32g_abs(repo, m, f, cfg, e.left, at, depth + 1)  # pathlib `a / b`: as os.path.join(a, b)
     if isinstance(e, ast.Call):
         la = last_attr(e)
         if la in _R32G_ABS_MAKERS:
@@ -698,14 +739,28 @@ def _r32g_abs(repo, m, f, cfg, e, at, depth: int = 0) -> bool:
             return _r32g_abs(repo, m, f, cfg, a, at, depth + 1)
         if la == "join" and e.args:
             return _r32g_abs(repo, m, f, cfg, e.args[0], at, depth + 1)
+        if isinstance(e.func, ast.Name):
+            # a plain module-level helper of this module: absolute when every value it returns is
+            helper = next((f2 for q2, f2 in m.functions() if q2 == e.func.id and not f2.decorator_list and isinstance(f2, ast.FunctionDef)), None)
+            if helper is not None and helper is not f:
+                rets = [r for r in walk_local(helper) if isinstance(r, ast.Return)]
+                if rets and not any(isinstance(n, (ast.Yield, ast.YieldFrom)) for n in walk_local(helper)):
+                    cfg2 = cfg_of(helper)
+                    return all(r.value is not None and _r32g_abs(repo, m, helper, cfg2, r.value, r, depth + 1) for r in rets)
         return False
     if isinstance(e, ast.Name):
+        it = _r32g_comp_iter(e)
+        if it is not None:
+            return _r32g_elems_abs(repo, m, f, cfg, it, at, depth + 1)
         os_ = origins(cfg, e, at)
         if not os_:
             return False
         for o in os_:
             if o.kind == "expr" and isinstance(o.expr, ast.AST) and not o.path:
                 if not _r32g_abs(repo, m, f, cfg, o.expr, o.stmt if o.stmt is not None else at, depth + 1):
+                    return False
+            elif o.kind == "for" and not o.path and isinstance(o.stmt, ast.For) and isinstance(o.stmt.target, ast.Name):
+                if not _r32g_elems_abs(repo, m, f, cfg, o.stmt.iter, o.stmt, depth + 1):
                     return False
             elif o.kind == "param":
                 pname = o.expr.arg if isinstance(getattr(o, "expr", None), ast.arg) else e.id
@@ -974,6 +1029,74 @@ VARIANTS: List[Variant] = [
         "            extra_config = load_config_file_as_dict(\n                str(Path(expanded_config_path).resolve())\n            )\n",
         "            resolved_extra = os.path.abspath(expanded_config_path)\n            extra_config = load_config_file_as_dict(resolved_extra)\n",
         "QUIET", None, "abspath through a local",
+    ),
+    # behaviour-preserving refactors: must stay quiet (R32g)
+    Variant(
+        'quiet-r32g-stack-built-in-a-loop', "src/sqlfluff/core/config/loader.py",
+        '        config_stack = [load_config_at_path(str(p.resolve())) for p in config_paths]\n',
+        '        config_stack = []\n        for cfg_dir in config_paths:\n            resolved_dir = cfg_dir.resolve()\n            config_stack.append(load_config_at_path(path=str(resolved_dir)))\n',
+        "QUIET", None, 'comprehension as a loop, resolved path through a local, keyword argument',
+    ),
+    Variant(
+        'quiet-r32g-paths-resolved-first', "src/sqlfluff/core/config/loader.py",
+        '        config_stack = [load_config_at_path(str(p.resolve())) for p in config_paths]\n',
+        '        resolved_paths = [str(p.resolve()) for p in config_paths]\n        config_stack = [load_config_at_path(rp) for rp in resolved_paths]\n',
+        "QUIET", None, 'all paths resolved in a first comprehension, loaded in a second',
+    ),
+    Variant(
+        'quiet-r32g-parents-resolved-then-looped', "src/sqlfluff/core/config/loader.py",
+        '        parent_config_stack = [\n            load_config_at_path(str(p.resolve())) for p in list(parent_config_paths)\n        ]\n',
+        '        resolved_parents = [p.resolve() for p in parent_config_paths]\n        parent_config_stack = []\n        for parent in resolved_parents:\n            parent_config_stack.append(load_config_at_path(str(parent)))\n',
+        "QUIET", None, 'list of resolved paths walked by a for loop',
+    ),
+    Variant(
+        'quiet-r32g-resolve-in-module-helper', "src/sqlfluff/core/config/loader.py",
+        '            extra_config = load_config_file_as_dict(\n                str(Path(expanded_config_path).resolve())\n            )\n        except FileNotFoundError:\n            raise SQLFluffUserError(\n                f"Extra config path \'{extra_config_path}\' does not exist."\n            )\n\n    return nested_combine(\n        user_appdir_config,\n        user_config,\n        *parent_config_stack,\n        *config_stack,\n        extra_config,\n    )\n',
+        '            extra_config = load_config_file_as_dict(_cache_key(expanded_config_path))\n        except FileNotFoundError:\n            raise SQLFluffUserError(\n                f"Extra config path \'{extra_config_path}\' does not exist."\n            )\n\n    return nested_combine(\n        user_appdir_config,\n        user_config,\n        *parent_config_stack,\n        *config_stack,\n        extra_config,\n    )\n\n\ndef _cache_key(some_path: str) -> str:\n    """The spelling of a path the memoised loaders are keyed on."""\n    return str(Path(some_path).resolve())\n',
+        "QUIET", None, 'str(Path(..).resolve()) extracted into a module-level helper',
+    ),
+    Variant(
+        'quiet-r32g-home-from-pathlib', "src/sqlfluff/core/config/loader.py",
+        '        user_config = load_config_at_path(os.path.expanduser("~"))\n',
+        '        home_dir = str(Path.home())\n        user_config = load_config_at_path(home_dir)\n',
+        "QUIET", None, "the home directory from Path.home() (= expanduser('~')) through a local",
+    ),
+    Variant(
+        'quiet-r32g-discovery-pathlib-join', "src/sqlfluff/core/linter/discovery.py",
+        '    filepath = os.path.join(dirpath, filename)\n    # Use normalised path to ensure reliable caching.\n    config_dict = load_config_file_as_dict(Path(filepath).resolve())\n',
+        '    filepath = os.path.join(dirpath, filename)\n    config_file = Path(dirpath) / filename\n    # Use normalised path to ensure reliable caching.\n    config_dict = load_config_file_as_dict(filepath=config_file.resolve())\n',
+        "QUIET", None, 'os.path.join as pathlib `/`, keyword argument',
+    ),
+    Variant(
+        'quiet-r32g-load-config-file-pathlib-join', "src/sqlfluff/core/config/loader.py",
+        '    file_path = os.path.join(file_dir, file_name)\n    raw_config = load_config_file_as_dict(file_path)\n',
+        '    config_file = Path(file_dir) / file_name\n    raw_config = load_config_file_as_dict(str(config_file))\n',
+        "QUIET", None, 'directory / name with pathlib; the directory parameter is absolute at every call site',
+    ),
+    # ---- breaking twins of the R32g spellings above
+    Variant(
+        'r32g-paths-made-relative-first', "src/sqlfluff/core/config/loader.py",
+        '        config_stack = [load_config_at_path(str(p.resolve())) for p in config_paths]\n',
+        '        shown_paths = [os.path.relpath(p) for p in config_paths]\n        config_stack = [load_config_at_path(rp) for rp in shown_paths]\n',
+        "R32g", 'load_config_up_to_path', 'twin of quiet-r32g-paths-resolved-first: keys relative to the working directory',
+    ),
+    Variant(
+        'r32g-parents-looped-unresolved', "src/sqlfluff/core/config/loader.py",
+        '        parent_config_stack = [\n            load_config_at_path(str(p.resolve())) for p in list(parent_config_paths)\n        ]\n',
+        '        parent_names = [os.path.relpath(p) for p in parent_config_paths]\n        parent_config_stack = []\n        for parent in parent_names:\n            parent_config_stack.append(load_config_at_path(str(parent)))\n',
+        "R32g", 'load_config_up_to_path', 'twin of quiet-r32g-parents-resolved-then-looped',
+    ),
+    Variant(
+        'r32g-module-helper-only-normalises', "src/sqlfluff/core/config/loader.py",
+        '            extra_config = load_config_file_as_dict(\n                str(Path(expanded_config_path).resolve())\n            )\n        except FileNotFoundError:\n            raise SQLFluffUserError(\n                f"Extra config path \'{extra_config_path}\' does not exist."\n            )\n\n    return nested_combine(\n        user_appdir_config,\n        user_config,\n        *parent_config_stack,\n        *config_stack,\n        extra_config,\n    )\n',
+        '            extra_config = load_config_file_as_dict(_cache_key(expanded_config_path))\n        except FileNotFoundError:\n            raise SQLFluffUserError(\n                f"Extra config path \'{extra_config_path}\' does not exist."\n            )\n\n    return nested_combine(\n        user_appdir_config,\n        user_config,\n        *parent_config_stack,\n        *config_stack,\n        extra_config,\n    )\n\n\ndef _cache_key(some_path: str) -> str:\n    """The spelling of a path the memoised loaders are keyed on."""\n    return os.path.normpath(some_path)\n',
+        "R32g", 'load_config_up_to_path', 'twin of quiet-r32g-resolve-in-module-helper: the helper does not make the path absolute (seeded C32-7 through a helper)',
+    ),
+    Variant(
+        'r32g-pathlib-join-of-a-relative-directory', "src/sqlfluff/core/linter/discovery.py",
+        '    filepath = os.path.join(dirpath, filename)\n    # Use normalised path to ensure reliable caching.\n    config_dict = load_config_file_as_dict(Path(filepath).resolve())\n',
+        '    filepath = os.path.join(dirpath, filename)\n    config_file = Path(dirpath) / filename\n    config_dict = load_config_file_as_dict(config_file)\n',
+        "R32g", '_load_configfile', 'twin of quiet-r32g-discovery-pathlib-join: resolve() dropped, dirpath is whatever the walk was started with',
     ),
     Variant(
         "libraries-namespace-is-the-class-object", "src/sqlfluff/core/templaters/jinja.py",
